@@ -231,7 +231,7 @@ def gen_spec(rng, focus, small=False):
             # a symlink to a FILE is a different scanned object (skipped without -S), so file roots are only
             # re-spelled in ways that name the same directory entry
             is_file_root = any(f["p"] == p for f in files)
-            s = rng.choice(["dot", "dotdot", "abs"] if is_file_root else ["dot", "slash", "dotdot", "symlink", "abs"])
+            s = rng.choice(["dot", "dotdot", "abs"] if is_file_root else ["dot", "slash", "dotdot", "symlink", "linkup", "abs"])
         spelled.append([p, s])
     # options that depend on the number of roots
     if rng.chance(*((1, 2) if focus == "C06" else (1, 4))) and isolate_valid(opts, len(spelled)):
@@ -300,6 +300,9 @@ def spell(p, how, tdir):
         return p.split("/")[0] + "/../" + p
     if how == "symlink":
         return "lnk_" + p.replace("/", "_")
+    if how == "linkup":
+        # a top-level link to a CHILD directory of p, then `..`: physically p, lexically the top directory
+        return "lnu_" + p.replace("/", "_") + "/.."
     if how == "abs":
         return tdir + "/" + p
     raise ValueError(how)
@@ -336,6 +339,13 @@ def materialise(spec, where):
             ln = os.path.join(tdir, "lnk_" + p.replace("/", "_"))
             if not os.path.lexists(ln):
                 os.symlink(os.path.join(tdir, p), ln)
+        if how == "linkup":
+            ln = os.path.join(tdir, "lnu_" + p.replace("/", "_"))
+            if not os.path.lexists(ln):
+                kids = sorted(d for d in spec["dirs"] if d.startswith(p + "/") and "/" not in d[len(p) + 1:])
+                kid = kids[0] if kids else p + "/zz_sub"          # an empty directory changes no report
+                os.makedirs(os.path.join(tdir, kid), exist_ok=True)
+                os.symlink(os.path.join(tdir, kid), ln)
         paths.append(spell(p, how, tdir))
     env = {"disk_kind": spec["env"].get("disk_kind"),
            "mounts": ",".join("%s=%s" % (k, os.path.join(tdir, d)) for k, d in spec["env"].get("mounts", [])) or None,
